@@ -693,3 +693,7 @@ pub struct ExecutorInfo {
     pub executor_stats: Arc<dyn StreamExecutorStats + Send + Sync>,
     pub stream_id:      u32,
 }
+
+/// verification hook (compiled only under `cargo kani` or `--cfg reactive_mutiny_verif`): harnesses live outside this repository
+#[cfg(any(kani, reactive_mutiny_verif))]
+pub(crate) mod verif_hooks { include!(concat!(env!("REACTIVE_MUTINY_VERIF_DIR"), "/kani/multi.rs")); }
